@@ -41,7 +41,8 @@ impl HttpRangeRequest {
         offset: u64,
         size: u64,
     ) -> Result<Bytes, HttpReaderError> {
-        let end_offset = offset + size - 1;
+        // A zero-size request must not wrap below its own offset.
+        let end_offset = (offset + size).saturating_sub(1);
         let request = request.header(
             reqwest::header::RANGE,
             format!("bytes={}-{}", offset, end_offset),
